@@ -630,12 +630,67 @@ func c01MergeDriver(c *Ctx, r *Rng) {
 	}
 }
 
+// c08Extension: the filters with a pointer extension configured (lfs.extension.<n>.clean/smudge/priority).
+// Content must round-trip through the extension pair; a pointer handed to clean must pass through
+// unchanged without anything being stored (D20: with an extension clean never sniffs for a pointer).
+func c08Extension(c *Ctx, prop string, r *Rng) {
+	dir := filepath.Join(c.Work, "c08-ext")
+	if gitInit(dir) != nil {
+		return
+	}
+	for k, v := range map[string]string{"lfs.extension.up.clean": "tr a-z A-Z", "lfs.extension.up.smudge": "tr A-Z a-z", "lfs.extension.up.priority": "0"} {
+		runIn(dir, nil, "git", "config", k, v)
+	}
+	countObjs := func() int {
+		n := 0
+		filepath.Walk(filepath.Join(dir, ".git", "lfs", "objects"), func(p string, fi os.FileInfo, err error) error {
+			if err == nil && !fi.IsDir() {
+				n++
+			}
+			return nil
+		})
+		return n
+	}
+	n := c.N(12, 200)
+	for i := 0; i < n; i++ {
+		content := []byte(strings.Repeat("lower case text ", 1+r.Intn(200)))
+		ptr, code := runInStdin(dir, string(content), c.Lfs, "clean", "x.bin")
+		enc := fmt.Sprintf("%s extension len=%d", prop, len(content))
+		c.R.Eval(enc, true)
+		c.R.Count("extension.clean")
+		if code != 0 || !strings.Contains(ptr, "ext-0-up sha256:") {
+			c.R.Add(Finding{Kind: "oracle", What: "clean with a configured pointer extension did not emit a pointer carrying the extension line", Case: enc, Impl: clip(ptr, 300)})
+			continue
+		}
+		back, code2 := runInStdin(dir, ptr, c.Lfs, "smudge", "x.bin")
+		if code2 != 0 || back != string(content) {
+			c.R.Add(Finding{Kind: "oracle", What: "clean then smudge through a pointer extension pair did not return the original bytes", Case: enc, Impl: clip(back, 200)})
+		}
+		if prop == "C08" {
+			before := countObjs()
+			again, code3 := runInStdin(dir, ptr, c.Lfs, "clean", "x.bin")
+			after := countObjs()
+			c.R.Count("extension.clean-of-pointer")
+			if code3 != 0 || again != ptr || after != before {
+				c.R.Add(Finding{Kind: "oracle", What: "a well-formed pointer given to clean was not written back unchanged (pointer to a pointer) / something was added to local storage", Sig: "D20",
+					Case: enc + " (pointer extension configured)", Impl: fmt.Sprintf("objects %d -> %d; output %q", before, after, clip(again, 200))})
+			}
+		}
+	}
+}
+
 func init() {
-	campaigns["C08"] = func(c *Ctx) { filterCampaign(c, "C08") }
+	campaigns["C08"] = func(c *Ctx) {
+		filterCampaign(c, "C08")
+		if c.Replay == "" {
+			c08Extension(c, "C08", NewRng(c.Seed^0xC08E))
+		}
+	}
 	campaigns["C01"] = func(c *Ctx) {
 		filterCampaign(c, "C01")
 		if c.Replay == "" {
 			c01MergeDriver(c, NewRng(c.Seed^0xC01D))
+			c08Extension(c, "C01", NewRng(c.Seed^0xC01E))
 		}
 	}
 }
